@@ -562,6 +562,11 @@ func callSSA(i *interpreter, caller *frame, callpos token.Pos, fn *ssa.Function,
 				fmt.Fprintln(os.Stderr, "\t(external)")
 			}
 			return ext(fr, args)
+		} else if ext := atomicPointerExternal(name); ext != nil {
+			if i.mode&EnableTracing != 0 {
+				fmt.Fprintln(os.Stderr, "\t(external)")
+			}
+			return ext(fr, args)
 		}
 		if fn.Blocks == nil {
 			panic("no code for function: " + name)
